@@ -16,6 +16,8 @@ package revision
 //@ ghost released bool = false
 //@ optional site (revision.Establisher).ReleaseObjects(_, _, $p)
 //@   update released = err == nil && $p == $pr
+//@ optional site *.SetConditions($o, $cs...) as report-health
+//@   assert [C16:inactive-revision-healthy-only-after-releasing-control] ($o == $pr && $pr.GetDesiredState() == "Inactive" && len($cs) == 1 && $cs[0].Type == "Healthy" && $cs[0].Status == "True") ==> released
 //@ ghost lockRemoved bool = false
 //@ let $pr = result field:revision.Reconciler.newPackageRevision
 //@ site (revision.DependencyManager).RemoveSelf(_, _, $o)
